@@ -386,3 +386,22 @@ def person_overwrites_pending_ai_line_then_checkout_m():
         return _final(s)
     finally:
         s.destroy()
+
+
+def squash_merge_keeps_unrelated_pending_work():
+    """D84 (fixed): an agent's line in g.txt is pending (uncommitted) on main; `git merge --squash feature` (the branch only changes f.txt);
+    commit; later everything is committed => g.txt's line was committed as human: the squash handler deleted the whole working log of
+    HEAD ('--squash always fails if the repo is not clean' - it only needs the merged files to be clean)."""
+    s = _mk("d84", files=2)
+    try:
+        f0 = [s.line("human") for _ in range(3)]; g0 = [s.line("human") for _ in range(3)]
+        s.human_write("f.txt", f0); s.human_write("g.txt", g0); s.commit_all("init")
+        s.g("checkout", "-q", "-b", "feature")
+        s.ai_write("S1", "f.txt", f0 + [s.line("S1")]); s.commit_all("feature ai")
+        s.g("checkout", "-q", "main")
+        s.ai_write("S2", "g.txt", g0 + [s.line("S2")])
+        s.g("merge", "--squash", "feature")
+        s.g("commit", "-q", "-m", "squashed")
+        return _final(s)
+    finally:
+        s.destroy()
